@@ -67,6 +67,10 @@ type exec struct {
 
 var cur *exec // the execution in progress; nil outside an exploration
 
+// SpinLimit is the number of consecutive steps after which a running thread is
+// considered to be spinning when other threads are enabled.
+var SpinLimit = 60
+
 // Result of one controlled execution.
 type Result struct {
 	Steps       int
@@ -121,15 +125,24 @@ func Run(ch Chooser, horizon int, bodies []func()) *Result {
 			b()
 		}()
 	}
+	consecutive := 0
 	for {
 		var en []*thread
-		if e.running != nil && e.running.enabled() {
+		// fairness: a thread that has taken SpinLimit consecutive steps while others are
+		// enabled is treated as spinning (a retry-until-success loop): it goes last and
+		// switching away from it is free. This keeps executions finite without hiding
+		// schedules (every forced switch is a legal schedule).
+		spinning := e.running != nil && consecutive >= SpinLimit
+		if e.running != nil && e.running.enabled() && !spinning {
 			en = append(en, e.running)
 		}
 		for _, t := range e.threads {
 			if t != e.running && t.enabled() {
 				en = append(en, t)
 			}
+		}
+		if spinning && e.running.enabled() {
+			en = append(en, e.running)
 		}
 		if len(en) == 0 {
 			for _, t := range e.threads {
@@ -147,7 +160,7 @@ func Run(ch Chooser, horizon int, bodies []func()) *Result {
 		var cost []int
 		if len(en) > 1 {
 			cost = make([]int, len(en))
-			if e.running != nil && en[0] == e.running {
+			if e.running != nil && en[0] == e.running && !spinning {
 				// switching away from a thread that could go on is a preemption
 				for i := 1; i < len(en); i++ {
 					cost[i] = 1
@@ -169,6 +182,11 @@ func Run(ch Chooser, horizon int, bodies []func()) *Result {
 			}
 		case opRLock:
 			t.pending.rw.readers++
+		}
+		if t == e.running {
+			consecutive++
+		} else {
+			consecutive = 0
 		}
 		e.running = t
 		res.Steps++
